@@ -118,6 +118,27 @@ def run(tier, replay=None):
         take(rep, "nesting / length %d" % depth)
         times += rep.get("times") or []
     cov["nesting_depths"] = "up to %d" % depth
+    # 3b. type depths around the 16-bit boundaries, and include graphs (one process each)
+    groups = [("type depth %d" % n, lexcases.typedepth_cases(n)) for n in (3, 300, 32766, 32767, 32768, 65535, 65536, 70000)]
+    groups += [("include graph " + c["id"], [c]) for c in lexcases.graph_cases()]
+    ngr = 0
+    for label, cs in groups:
+        lexcases.write(cs, os.path.join(wd, "g.ndjson"))
+        try:
+            p = vh(["parse-cases", os.path.join(wd, "g.ndjson"), os.path.join(wd, "g.json")], timeout=300)
+            rc, err = p.returncode, p.stderr
+        except subprocess.TimeoutExpired:
+            rc, err = -1, "timeout"
+        if rc != 0:
+            head = err[:300].replace("\n", " ")
+            viols.append({"key": "C08:process:crash on %s" % label,
+                          "what": "the process died on %s: %s" % (label, head),
+                          "replay": {"cases.ndjson": open(os.path.join(wd, "g.ndjson")).read()[:200000], "stderr.txt": err[:4000]}})
+            continue
+        rep = json.load(open(os.path.join(wd, "g.json")))
+        ngr += rep["cases"]
+        take(rep, label)
+    cov["type_depth_and_include_graph_cases"] = ngr
     cov["timings_ms_of_large_inputs"] = times[:40]
     # 4. token edits
     srcs = []
